@@ -26,6 +26,18 @@ pub mod k256 {
         /// k256: SEC1 point decoding (33-byte compressed / 65-byte uncompressed)
         pub uninterp spec fn sec1_valid(b: Seq<u8>) -> bool;
         pub uninterp spec fn sec1_key(b: Seq<u8>) -> VerifyingKey;
+        /// the verifying key of a signing key
+        pub uninterp spec fn sk_public(k: &SigningKey) -> VerifyingKey;
+        /// 33-byte compressed SEC1 form / 64-byte x||y form of a verifying key
+        pub uninterp spec fn vk_compressed(k: &VerifyingKey) -> Seq<u8>;
+        pub uninterp spec fn vk_xy(k: &VerifyingKey) -> Seq<u8>;
+        /// keccak256 + ECDSA verification of a 64-byte r||s low-S signature
+        pub uninterp spec fn vk_verify_v4(k: &VerifyingKey, msg: Seq<u8>, sig: Seq<u8>) -> bool;
+        /// k256: the compressed encoding of a key is 33 bytes and decodes back to the same key
+        #[verifier::external_body]
+        pub proof fn axiom_vk_roundtrip(k: VerifyingKey)
+            ensures vk_compressed(&k).len() == 33, sec1_valid(vk_compressed(&k)), sec1_key(vk_compressed(&k)) == k,
+        {}
         impl SigningKey {
             #[verifier::external_body]
             pub fn from_slice(b: &[u8]) -> (r: Result<Self, Error>)
@@ -101,6 +113,14 @@ pub mod ed25519_dalek {
     pub uninterp spec fn secret_of(k: &SigningKey) -> Seq<u8>;
     pub uninterp spec fn pk_valid(b: Seq<u8>) -> bool;
     pub uninterp spec fn pk_of(b: Seq<u8>) -> VerifyingKey;
+    pub uninterp spec fn sk_public(k: &SigningKey) -> VerifyingKey;
+    pub uninterp spec fn vk_bytes(k: &VerifyingKey) -> Seq<u8>;
+    pub uninterp spec fn vk_verify_v4(k: &VerifyingKey, msg: Seq<u8>, sig: Seq<u8>) -> bool;
+    /// ed25519-dalek: a public key is 32 bytes and decodes back to the same key
+    #[verifier::external_body]
+    pub proof fn axiom_vk_roundtrip(k: VerifyingKey)
+        ensures vk_bytes(&k).len() == 32, pk_valid(vk_bytes(&k)), pk_of(vk_bytes(&k)) == k,
+    {}
     impl SigningKey {
         /// stand-in for `<SigningKey as TryFrom<&[u8]>>::try_from`
         #[verifier::external_body]
